@@ -316,6 +316,28 @@ def _propagate_bound_literals(prefix, body):
     for pa in prefix:
         if isinstance(pa, ast.Assign) and len(pa.targets) == 1 and isinstance(pa.targets[0], ast.Name) and isinstance(pa.value, ast.Constant):
             env[pa.targets[0].id] = pa.value
+    # bound to a freshly built container (`pool = list(range(n))`): not None, whatever it holds
+    notnone = set()
+    for pa in prefix:
+        if isinstance(pa, ast.Assign) and len(pa.targets) == 1 and isinstance(pa.targets[0], ast.Name) and (
+            isinstance(pa.value, (ast.List, ast.Tuple, ast.Dict, ast.Set, ast.ListComp, ast.DictComp, ast.SetComp))
+            or (isinstance(pa.value, ast.Call) and isinstance(pa.value.func, ast.Name) and pa.value.func.id in ("list", "tuple", "dict", "set", "sorted"))
+        ):
+            notnone.add(pa.targets[0].id)
+    if notnone:
+        out, work = [], list(body)
+        while work:
+            st = work.pop(0)
+            if isinstance(st, ast.If) and notnone and isinstance(st.test, ast.Compare) and len(st.test.ops) == 1 \
+                    and isinstance(st.test.left, ast.Name) and st.test.left.id in notnone \
+                    and isinstance(st.test.ops[0], (ast.Is, ast.IsNot)) \
+                    and isinstance(st.test.comparators[0], ast.Constant) and st.test.comparators[0].value is None:
+                work = list(st.orelse if isinstance(st.test.ops[0], ast.Is) else st.body) + work
+                continue
+            for nm in _stores(st):
+                notnone.discard(nm)
+            out.append(st)
+        body = out
     if not env:
         return body
 
@@ -1589,6 +1611,51 @@ class Normalizer:
                     c.args[k:k + 1] = [copy.deepcopy(e) for e in a.value.elts]
                     del out[i]
                     continue
+            # the same with the tuple bound at the end of every branch of an `if` (a helper with two returns
+            # written out): the consuming statement moves into the branches
+            if isinstance(a, ast.If) and not isinstance(b, (ast.If, ast.For, ast.While, ast.Try, ast.With, ast.FunctionDef)):
+                def tails(st):
+                    """the last statements of all branches, or None if some branch does not end in `_arg__h = tuple`"""
+                    res = []
+                    for blk in (st.body, st.orelse):
+                        if not blk:
+                            return None
+                        last = blk[-1]
+                        if isinstance(last, ast.If):
+                            sub = tails(last)
+                            if sub is None:
+                                return None
+                            res += sub
+                        elif (
+                            isinstance(last, ast.Assign) and len(last.targets) == 1 and isinstance(last.targets[0], ast.Name)
+                            and last.targets[0].id.startswith("_arg__h") and isinstance(last.value, ast.Tuple)
+                            and all(_is_path_expr(e) for e in last.value.elts)
+                        ):
+                            res.append((blk, last))
+                        else:
+                            return None
+                    return res
+
+                ts = tails(a)
+                if ts and len({t.targets[0].id for _b, t in ts}) == 1:
+                    name = ts[0][1].targets[0].id
+                    uses = [x for st in out[i + 1:] for x in ast.walk(st) if isinstance(x, ast.Name) and x.id == name]
+                    inner_uses = [x for x in ast.walk(a) if isinstance(x, ast.Name) and x.id == name and isinstance(x.ctx, ast.Load)]
+                    stars = [
+                        (c, k) for c in ast.walk(b) if isinstance(c, ast.Call)
+                        for k, arg in enumerate(c.args) if isinstance(arg, ast.Starred) and isinstance(arg.value, ast.Name) and arg.value.id == name
+                    ]
+                    if len(uses) == 1 and len(stars) == 1 and not inner_uses:
+                        for blk, last in ts:
+                            cp = copy.deepcopy(b)
+                            for c in ast.walk(cp):
+                                if isinstance(c, ast.Call):
+                                    for k, arg in enumerate(list(c.args)):
+                                        if isinstance(arg, ast.Starred) and isinstance(arg.value, ast.Name) and arg.value.id == name:
+                                            c.args[k:k + 1] = [copy.deepcopy(e) for e in last.value.elts]
+                            blk[-1] = cp
+                        del out[i + 1]
+                        continue
             i += 1
         return out
 
